@@ -146,7 +146,7 @@ TryIterLine(r) ==
       ELSE IF fin.res = "driver" /\ r.res.id # fin.id THEN Flag("fault.identity")
       ELSE /\ its' = (r.it :> [live |-> fin.res = "ok",
                                it |-> IF fin.res = "ok" THEN fin.it ELSE NewIt(ct),
-                               lastIn |-> want.inputs, posterr |-> FALSE,
+                               lastIn |-> want.inputs, posterr |-> FALSE, dyn |-> <<>>,
                                rng |-> [hist |-> <<>>, pos |-> 0]]) @@ its
            /\ UNCHANGED <<run, ct, skip, diag>>
 
@@ -215,7 +215,8 @@ NextLine(r) ==
                      THEN /\ skip' = TRUE /\ UNCHANGED <<run, ct, its, diag>>
                      ELSE Flag(code)
       AfterError(it1, lastIn) ==
-        /\ its' = [its EXCEPT ![r.it].it = it1, ![r.it].lastIn = lastIn, ![r.it].posterr = TRUE, ![r.it].rng = rf.st]
+        /\ its' = [its EXCEPT ![r.it].it = it1, ![r.it].lastIn = lastIn, ![r.it].posterr = TRUE, ![r.it].rng = rf.st,
+                              ![r.it].dyn = Append(@, [k |-> "other"])]
         /\ UNCHANGED <<run, ct, skip, diag>>
   IN
   \E c \in {NextCall(ct, e.it, rs, 0)} :      \* bound through a singleton set: evaluated exactly once
@@ -262,7 +263,9 @@ NextLine(r) ==
                   LET code == CompareRow(e, c, ret, r)
                   IN  IF code # "ok" THEN FlagT(code)
                       ELSE /\ its' = [its EXCEPT ![r.it].it = ret.it,
-                                                 ![r.it].lastIn = r.item.inputs, ![r.it].rng = rf.st]
+                                                 ![r.it].lastIn = r.item.inputs, ![r.it].rng = rf.st,
+                                                 ![r.it].dyn = Append(@, [k |-> "row", line |-> r.item.line, inputs |-> r.item.inputs,
+                                                     exp |-> [n \in DOMAIN r.item.outputs |-> [s |-> r.item.outputs[n].s, v |-> r.item.outputs[n].exp]]])]
                            /\ UNCHANGED <<run, ct, skip, diag>>
 
 \* ---- static iteration (C15): try_iter_static succeeds exactly when the program reads no output; it then yields
@@ -275,7 +278,7 @@ TryIterStaticLine(r) ==
       ELSE IF (r.res.k = "ok") # wantOk THEN Flag("static.accept")
       ELSE /\ its' = (r.it :> [live |-> wantOk,
                                it |-> IF wantOk THEN CtorFinish(ct, EmptyAns).it ELSE NewIt(ct),
-                               lastIn |-> DefaultInputs(ct), posterr |-> FALSE,
+                               lastIn |-> DefaultInputs(ct), posterr |-> FALSE, dyn |-> <<>>,
                                rng |-> [hist |-> <<>>, pos |-> 0]]) @@ its
            /\ UNCHANGED <<run, ct, skip, diag>>
 
@@ -301,7 +304,17 @@ NextStaticLine(r) ==
            ELSE IF Len(r.item.expected) # Len(p.outputs) THEN Flag("static.rows")
            ELSE IF \E k \in DOMAIN p.outputs : r.item.expected[k].s # p.outputs[k].s \/ r.item.expected[k].v # p.outputs[k].exp
                 THEN Flag("static.rows")
-           ELSE /\ its' = [its EXCEPT ![r.it].it = ret.it] /\ UNCHANGED <<run, ct, skip, diag>>
+           \* C15, on the log alone: the static row equals, flags included, the row every dynamic iterator yielded at
+           \* the same position (error items aside), whatever its driver returned
+           ELSE IF ~UsesRandom(ct.prog) /\ \E j \in DOMAIN its : j # r.it /\
+                     LET i == Len(e.dyn) + 1
+                     IN  /\ i <= Len(its[j].dyn) /\ its[j].dyn[i].k = "row"
+                         /\ \/ its[j].dyn[i].line # r.item.line
+                            \/ its[j].dyn[i].inputs # r.item.inputs
+                            \/ (its[j].dyn[i].exp # <<>> /\ its[j].dyn[i].exp # r.item.expected)
+                THEN Flag("static.differ")
+           ELSE /\ its' = [its EXCEPT ![r.it].it = ret.it, ![r.it].dyn = Append(@, [k |-> "row"])]
+                /\ UNCHANGED <<run, ct, skip, diag>>
 
 Step ==
   /\ l <= Len(Rec)
